@@ -24,6 +24,7 @@ import numpy as np
 
 from mc import alpha
 from mc.env import guard
+from mc.state import seq
 from tracklib.core.track import Track
 from tracklib.core.obs import Obs
 from tracklib.core.obs_coords import ENUCoords
@@ -70,6 +71,7 @@ OBLIGATIONS = {
     "seam_simplify_free": "a delegated call of simplify(MODE_SIMPLIFY_FREE) was recorded at the seam",
     "seam_findStopsGlobal": "a delegated call of findStopsGlobal with a non-zero reward matrix was recorded at the seam",
     "caller_direction_matters": "a caller case in which minimum and maximum of the recorded matrix differ",
+    "call_after_a_matrix_that_is_not_square": "optimalPartition judged right after a call with a rectangular matrix of the same number of rows (n >= 5)",
     "matrix_object_reused": "the same ndarray object was handed to optimalPartition a second time (after a call in the other "
                             "direction, and after a call in the same direction)",
     "negative_entry_on_optimum": "the optimal break list uses a negative entry (a reward inside a cost matrix)",
@@ -356,6 +358,18 @@ def check_partition(variant, n, upper, direction, ctx):
         ok2, _ = judge(ctx, site, case, r2, M, n, direction, oblige=False)
         if not ok2:
             return nt
+    # ---- ... and right after a matrix that is outside the statement (not square: as many rows, three columns; its costs make
+    # every split worthwhile in this direction).  Whether that call is refused or answered, the next one is an ordinary call
+    if n >= 5:
+        R = np.array([[float(abs(j - i)) ** (2 if direction == 0 else 0.5) for j in range(3)] for i in range(n + 1)], dtype=float)
+        guard(_ORIG_PARTITION, R, direction, False)
+        st3, r3 = guard(_ORIG_PARTITION, np.array(M, dtype=float), direction, False)
+        ctx.oblige("call_after_a_matrix_that_is_not_square")
+        site = "optimalPartition/after-a-matrix-that-is-not-square"
+        if st3 != "ok":
+            ctx.violation("%s/%s" % (site, "does-not-return" if st3 == "hang" else "raises"), case, r3)
+            return nt
+        judge(ctx, site, case, r3, M, n, direction, oblige=False)
     return nt
 
 
@@ -551,7 +565,7 @@ def check_caller(variant, caller, pts, ctx, table=None):
         return nt
     # (4) what the caller hands back is what the dynamic programme selected
     if site == "optimalSegmentation":
-        if not isinstance(r, list) or [int(v) for v in r] != [int(v) for v in answer]:
+        if seq(r) is None or [int(v) for v in seq(r)] != [int(v) for v in answer]:
             ctx.violation("%s/result-differs-from-selected-breaks" % site, case, {"returned": repr(r)[:200], "selected": list(answer)})
             return nt
     elif site in ("optimalSimplification", "simplify-free", "simplify-free-maximize"):
